@@ -477,7 +477,7 @@ def contains(eng, x, container, node):
     xv = eng.deref(x)
     if isinstance(c, VSet):
         ix = as_int(eng, xv)
-        if ix is not None:
+        if ix is not None and not (c.arr is not None and c.arr.sort().domain() == Val):
             return c.contains_term(ix)
         if c.arr is not None and c.arr.sort().domain() == Val:
             return c.arr[to_val(eng, xv)]
